@@ -1,6 +1,8 @@
 //@unit sm2_ecc
 //@serves C03 C04 C05 C06 C11 C15 C19
 //@source gm-sm2/src/p256_ecc.rs
+//@lean sm2_point_dbl sm2_point_add sm2_is_valid sm2_is_valid_affine sm2_to_affine
+//@assume Point::point_add / point_dbl: bodies are NOT verified by Verus against their group-law contracts; their formulas are checked by Lean obligations (ring identities generated from the real code); the case analysis connecting those identities to the contracts (infinity, h = 0, Montgomery decoding) is assumed
 //@include-spec sm2_math
 //@section spec
 use core::fmt::Debug;
